@@ -153,6 +153,9 @@ class Box:
                 except OSError:
                     pass
                 shutil.rmtree(self.base, ignore_errors=True)
+                if os.path.exists(self.base):      # something could not be removed: never reuse it
+                    self.n += 1
+                    os.rename(self.base, "%s.trash%d" % (self.base, self.n))
             os.makedirs(self.home)
         self.clear_run()
 
